@@ -33,6 +33,9 @@ def nontrivial(sim):
 def plan(tier, seed):
     per, hist = (3, 70) if tier == 'quick' else (10, 220)
     specs = simcheck.sim_specs(['c09', 'c09', 'c04', 'c01'], seed, per, hist, base=90000)
+    # a few worker-in-isolation lifetimes (quota, late crediting of consumed results)
+    specs += [{'lane': 'iso', 'method': 'fork', 'seed': seed * 777 + k, 'lifetimes': 6,
+               'timeout': 200} for k in range(4 if tier == 'quick' else 16)]
     try:
         from vmon import real_c09
         specs += real_c09.plan(tier, seed)
@@ -41,8 +44,23 @@ def plan(tier, seed):
     return specs
 
 
+ISO_KINDS = ('exit_before_results_consumed', 'quota_exit_wrong_count', 'recycle_status_wrong',
+             'quota_exceeded', 'job_taken_after_quota', 'worker_exit_status_mismatch')
+
+
 def run_spec(spec, rec):
     if spec.get('lane') == 'sim':
         return simcheck.run_sim_spec(spec, rec, PROPERTY, nontrivial)
+    if spec.get('lane') == 'iso':
+        # lane L3 (worker in isolation, the harness is the parent): shared with
+        # C03; here only the quota / recycle-status / "exit waits until the
+        # parent consumed the results" oracles count
+        from vmon.checks import c03
+        n0 = len(rec.violations)
+        c03.run_iso_spec(spec, rec)
+        kept = [v for v in rec.violations[n0:] if v['kind'] in ISO_KINDS]
+        rec.count('iso:violations_of_other_properties', len(rec.violations) - n0 - len(kept))
+        rec.violations[n0:] = kept
+        return
     from vmon import real_c09
     return real_c09.run_spec(spec, rec)
